@@ -242,6 +242,7 @@ func c14Processes(c *lib.Ctx) {
 		}
 	}
 	strs = append(strs, strings.Repeat("a", 1000), strings.Repeat("a", 1001), strings.Repeat("é", 500), strings.Repeat("é", 501), strings.Repeat("\xff", 400)+"a")
+	c14MultiArg(c, bin)
 	for i, s := range strs {
 		if !c.Mine(int64(i)) {
 			continue
@@ -264,6 +265,46 @@ func c14Processes(c *lib.Ctx) {
 			c.Violate(lib.Violation{Key: "cli-searched-rejected-query", What: "the CLI searched although the validator rejects the query", Case: cs, Observed: truncStr(r.Out, 300)})
 		case err == nil && !strings.Contains(r.Out, "Searching for: "+want+"\n"):
 			c.Violate(lib.Violation{Key: "cli-echo", What: fmt.Sprintf("the CLI's 'Searching for:' line does not show the validated query %q", want), Case: cs, Observed: truncStr(r.Out, 300)})
+		}
+	}
+}
+
+// c14MultiArg: a query given as several command-line arguments is the arguments joined by single
+// blanks; acceptance (the 1000-byte limit, blankness, metacharacters) is decided on that whole query.
+func c14MultiArg(c *lib.Ctx, bin string) {
+	a := func(n int) string { return strings.Repeat("a", n) }
+	vecs := [][]string{
+		{"find", "large", "files"}, {"git", "", "commit"}, {"", "git"}, {" ", "x"}, {"compress", "\x01\x02", "directory"}, {"\x01", "\x02"}, {"a;", "b"}, {"a", "|", "b"},
+		{a(602), a(602)}, {a(500), a(500)}, {a(500), a(499)}, {a(400), a(400), a(199)}, {a(400), a(400), a(198)}, {a(999), "b"}, {a(998), "b"}, {a(1000), ""}, {a(334), a(333), a(333)},
+		{strings.Repeat("\u00e9", 250), strings.Repeat("\u00e9", 250)}, {strings.Repeat("\u00e9", 250), strings.Repeat("\u00e9", 249)},
+	}
+	for i, v := range vecs {
+		if !c.Mine(int64(i)) {
+			continue
+		}
+		env := newCLIEnv(filepath.Join(c.Scratch, "c14m"))
+		dbPath := filepath.Join(env.Cwd, "db.yml")
+		writeYAML(dbPath, uPick(uPool(), []int{0, 4, 22}))
+		r := env.run(bin, nil, append([]string{"--no-color", "-d", dbPath, "--"}, v...)...)
+		c.Rep.Evaluations++
+		c.Count("cli_multi_argument_cases", 1)
+		joined := strings.Join(v, " ")
+		want, err := validation.ValidateQuery(joined)
+		var lens []int
+		for _, x := range v {
+			lens = append(lens, len(x))
+		}
+		cs := c14Case{Query: fmt.Sprintf("%q", truncStr(joined, 80)), Then: fmt.Sprintf("argument lengths %v", lens)}
+		if why := crashed(r); why != "" {
+			c.Violate(lib.Violation{Key: "cli-crash", What: "wtf " + why, Case: cs})
+			continue
+		}
+		has := strings.Contains(r.Out, "Searching for: ")
+		switch {
+		case err != nil && has:
+			c.Violate(lib.Violation{Key: "cli-searched-rejected-query:multi-argument", What: fmt.Sprintf("arguments of %v bytes: the CLI searched although the query they form (%d bytes) must be rejected", lens, len(joined)), Case: cs, Observed: truncStr(r.Out, 200)})
+		case err == nil && !strings.Contains(r.Out, "Searching for: "+want+"\n"):
+			c.Violate(lib.Violation{Key: "cli-echo:multi-argument", What: fmt.Sprintf("arguments of %v bytes: the CLI does not search for the validated form %q of the query they form", lens, truncStr(want, 60)), Case: cs, Observed: truncStr(r.Out, 200)})
 		}
 	}
 }
